@@ -1,10 +1,23 @@
 --------------------------- MODULE KeyIdStoreTrace ---------------------------
 (* Direction V (schedules) for C15: call/return events of real threads racing *)
-(* on one KeyIdMemstore, ordered by one atomic counter.  The trace spec        *)
-(* inserts the linearisation step Lin(t) itself, anywhere between a thread's   *)
-(* call and its return; a round is linearizable iff the end of the recorded    *)
-(* events can be reached.  Acceptance witness: the invariant NotDone is        *)
-(* violated (l ran past the last event).                                       *)
+(* on one KeyIdMemstore, ordered by one atomic counter.  Every call event      *)
+(* carries the result its return later reported (`exp`, filled in by the      *)
+(* recorder when the call returned; the return event repeats it).  The trace   *)
+(* spec inserts the linearisation step itself, between a thread's call and its *)
+(* return; a round is linearizable iff the end of the recorded events can be   *)
+(* reached.  Acceptance witness: the invariant NotDone is violated.            *)
+(*                                                                             *)
+(* The search is kept small without losing any linearization:                  *)
+(*  - a pending call whose expected result is what the store would answer NOW  *)
+(*    and that leaves the mapping as it is (a losing insert, a get, a delete   *)
+(*    of nothing) is linearised at once (Eager): it changes nothing for the    *)
+(*    others, so any linearization that places it later can place it here;     *)
+(*  - a call that changes the mapping (winning insert, successful delete) is   *)
+(*    linearised only when the next recorded event is the return of a call     *)
+(*    not yet linearised (JustInTime): linearisation points commute with the   *)
+(*    call events and with returns of already linearised calls.                *)
+(* Rejecting a non-linearizable round with 16 threads took > 15 min before    *)
+(* these two rules (2^16 subsets of linearised calls per event).               *)
 EXTENDS Naturals, Sequences, FiniteSets, TLC, Json, IOUtils
 
 Rec == ndJsonDeserialize(IOEnv.TRACE)
@@ -28,23 +41,30 @@ Consume ==
   /\ LET e == Rec[l] IN
      CASE e.ev = "begin" -> map' = e.pre /\ pend' = [t \in 1..MaxT |-> Idle]
        [] e.ev = "call"  -> /\ pend[e.t] = Idle
-                            /\ pend' = [pend EXCEPT ![e.t] = [name |-> e.name, kid |-> e.kid, lin |-> FALSE, res |-> [ok |-> FALSE]]]
+                            /\ pend' = [pend EXCEPT ![e.t] = [name |-> e.name, kid |-> e.kid, lin |-> FALSE, exp |-> e.exp]]
                             /\ UNCHANGED map
-       [] e.ev = "ret"   -> /\ pend[e.t] # Idle /\ pend[e.t].lin /\ pend[e.t].res = e.res
+       [] e.ev = "ret"   -> /\ pend[e.t] # Idle /\ pend[e.t].lin /\ pend[e.t].exp = e.res
                             /\ pend' = [pend EXCEPT ![e.t] = Idle] /\ UNCHANGED map
        [] e.ev = "end"   -> /\ map = e.final /\ \A t \in 1..MaxT : pend[t] = Idle
                             /\ UNCHANGED <<map, pend>>
 
-\* silent: the linearisation point of a pending call
-Lin ==
-  \E t \in 1..MaxT :
-    /\ pend[t] # Idle /\ ~pend[t].lin
-    /\ LET e == Effect(map, pend[t].name, pend[t].kid) IN
-       /\ map' = e.map
-       /\ pend' = [pend EXCEPT ![t] = [@ EXCEPT !.lin = TRUE, !.res = e.res]]
-    /\ UNCHANGED l
+\* silent: the linearisation point of a pending call; it must answer what the call later reported
+Waiting(t) == pend[t] # Idle /\ ~pend[t].lin
+Lin(t) ==
+  /\ Waiting(t)
+  /\ LET e == Effect(map, pend[t].name, pend[t].kid) IN
+     /\ e.res = pend[t].exp
+     /\ map' = e.map
+     /\ pend' = [pend EXCEPT ![t] = [@ EXCEPT !.lin = TRUE]]
+  /\ UNCHANGED l
+ReadOnlyReady(t) ==
+  Waiting(t) /\ LET e == Effect(map, pend[t].name, pend[t].kid) IN e.res = pend[t].exp /\ e.map = map
+Eager == \E t \in 1..MaxT : ReadOnlyReady(t) /\ (\A u \in 1..t-1 : ~ReadOnlyReady(u)) /\ Lin(t)
+JustInTime ==
+  /\ l <= Len(Rec) /\ Rec[l].ev = "ret" /\ Waiting(Rec[l].t)
+  /\ \E t \in 1..MaxT : Lin(t)
 
-TraceNext == Consume \/ Lin
+TraceNext == IF \E t \in 1..MaxT : ReadOnlyReady(t) THEN Eager ELSE Consume \/ JustInTime
 TraceSpec == TraceInit /\ [][TraceNext]_tvars
 
 NotDone == l <= Len(Rec)
